@@ -1054,9 +1054,13 @@ class BannerHandler(Handler):
         assert fileid.suffix == EXT_FOR_PAGE
 
         for target in targets:
-            # An empty pattern matches no page (PurePath.match refuses it with ValueError)
-            if target and page.fileid.match(target):
-                return True
+            # A pattern without any path segment ("", ".", "./") matches no page
+            # (PurePath.match refuses it with ValueError)
+            try:
+                if target and page.fileid.match(target):
+                    return True
+            except ValueError:
+                continue
         return False
 
     def enter_page(self, fileid_stack: FileIdStack, page: Page) -> None:
